@@ -32,6 +32,18 @@ Check C10_teardown_terminates :
   c_status st = TearingDown e -> td_measure st = S n ->
   exists st', run st (repeat TdStep (S n)) = Some st' /\ c_status st' = Broken e /\
               pending_rids st' = [] /\ c_err_sent st' = true.
+Check C10_cut_anywhere :
+  forall st bs, c_status st = Open ->
+  exists st1, step st (Recv bs) = Some st1 /\
+    (c_status st1 <> Open \/
+     exists st2 e, step st1 Eof = Some st2 /\ c_status st2 = TearingDown e /\ (e = EHeaderIo \/ e = EClosedInBody)).
+Check C10_fault_completes_all :
+  forall ctl ls l st st2 e,
+  run (conn_init ctl) ls = Some st -> step st l = Some st2 -> c_status st2 = TearingDown e ->
+  exists st3, run st2 (repeat TdStep (td_measure st2)) = Some st3 /\ c_status st3 = Broken e /\
+    c_err_sent st3 = true /\
+    forall r, In r (c_submitted st2) ->
+      (exists o, outcome_of r (c_done st3) = Some o) \/ In r (c_cancelled st3).
 Check C10_no_partial :
   forall ctl st r f,
   reachable ctl st -> In (r, Resp f) (c_done st) ->
@@ -69,6 +81,8 @@ Print Assumptions C10_none_left.
 Print Assumptions C10_later_submit_fails.
 Print Assumptions C10_teardown_progress.
 Print Assumptions C10_teardown_terminates.
+Print Assumptions C10_cut_anywhere.
+Print Assumptions C10_fault_completes_all.
 Print Assumptions C10_no_partial.
 Print Assumptions C10_no_cross.
 Print Assumptions C10_unique.
